@@ -53,6 +53,26 @@ def U(universe, oracle, bounds, ref, level="exploration", tech=None):
     return (level, tech, universe + " Oracle: " + oracle, bounds, ref)
 
 CHECKS.update({
+ "C01": U("the shared program universe U-prog (typed generator: expression trees with tracing calls, statement lists with loops/break/continue/return, functions/recursion/lambdas, data with aliasing and void components, matches; 5.6 k programs quick / 250 k thorough) plus the strata S-empty (operations on empty/singleton arrays), S-task (tasks capturing every kind of value), S-jump (break/continue/return/? in every operand position) and S-voidvariant, each program under EVERY uniform budget in {1,2,3,7,64,MAX};",
+          "the run ends normally or with one of the four documented runtime errors: no Rust panic, no type-tag fault, no internal error; an operand-stack leak monitor compares the final stack depth after running a case's body once and three times (as a function and inlined as a block).",
+          "Bounded generator depth; `break`/`continue` out of an operand position is an open known finding confined to S-jump.", "DESIGN.md §3 C01"),
+ "C02": U("the same universe U-prog (plus 398 / 2,328 of its programs as whole standalone programs);",
+          "a deliberately naive reference interpreter of the documented semantics (left-to-right evaluation, short-circuit and/or, block scoping and shadowing, reference semantics of arrays/structs, capture by value, i128 arithmetic with range check, documented rendering) predicts printed output, host emits and the runtime-error kind; every model trace is replayed on the real compiler+VM.",
+          "Where the manual is silent the model answers Unspecified and only 'no fault' is asserted (negative exponents, empty-array rendering, some array methods, tasks).", "DESIGN.md §3 C02", "model_checking",
+          "exhaustive enumeration of a bounded typed program universe; every reference-model trace validated against the real compiler and VM"),
+ "C04": U("the deviation <= 1 neighbourhood of a 217-program corpus (repository test programs, core modules, examples, non-ASCII programs): every prefix, single-token deletion, replacement by each of 44 (79) tokens, single-character insertion from a 9-character menu, adjacent-token swap; semantic error mutations; all token strings of length <= 2 (quick) / 3 (thorough); deviation 2 on the 3 shortest files (thorough); quick = 34 shortest files;",
+          "check() and compile_bytecode() return a program or rendered diagnostics: no panic, no abort, no run-away (CPU watchdog 20 s per text).",
+          "A neighbourhood of real programs, not all UTF-8 strings; texts that make the type checker build a cyclic type (no occurs check) are open known findings listed by input.", "DESIGN.md §3 C04"),
+ "C05": U("(a) every program of U-prog compiled with and without the peephole optimizer (hook); (b) the operand grid: 57 boundary ints and 38 boundary floats x 12 operators x 6 operand forms (literal/variable on each side, compound assignment), optimizer on and off;",
+          "identical output, emits, end kind and error traceback between the two builds, identical outcome across the operand forms of one (op, a, b), and agreement with the C15 integer model.",
+          "Same bounds as C01/C02; S-jump known finding applies.", "DESIGN.md §3 C05", "translation_validation",
+          "translation validation over an exhaustively enumerated program universe and operand grid: optimized vs unoptimized bytecode and literal vs variable operand forms must be observationally equal"),
+ "C33": U("1,849 (quick) / ~16 k (thorough) erroneous programs obtained by every applicable single error mutation (undefined name, wrong-typed literal, deleted arm, assignment to let, dropped/added/unknown-named argument, unknown field, deleted token, bad escape) of corpus programs x 7 variants placing non-ASCII text before the site;",
+          "every diagnostic's primary range lies within the file, on UTF-8 character boundaries, covers the same characters as in the ASCII twin of the text (differential, no hand-written expectations), and intersects the mutated site where that is unambiguous.",
+          "Secondary labels are only counted; texts on which analysis panics belong to C04.", "DESIGN.md §3 C33"),
+ "C34": U("the C04 neighbourhood x EVERY byte offset 0..=len+1 (including offsets inside multi-byte characters) x {errors, definition_at, type_at, completions_at} on check_lsp;",
+          "no panic, no abort, no run-away in the analysis or in any query.",
+          "quick = 32 shortest files (3.2 M queries), thorough = 194 files (236 M queries); cyclic-type texts are open known findings listed by input.", "DESIGN.md §3 C34"),
  "C08": U("176 programs: 26 captured shapes (array, struct, tuple, enum value, string, closure, and each data kind nested once inside array / struct field / tuple / enum payload) x mutation by the task x mutation or reassignment by the spawner after the spawn, both sides observed through channels, plus captured channels (must stay shared); each under uniform budgets 1,2,3,7,64,1000 and ALL embedder executions with <= 1 (quick) / 2 (thorough) deviations;",
           "deep copy at spawn: the task's view reflects only its own mutation, the spawner's view only its own; channels are shared.",
           "Tasks spawned at top level; nesting depth 2.", "DESIGN.md §3 C08", "model_checking",
